@@ -1851,6 +1851,8 @@ def tags(case, obs):
         if "raise_site" in obs:
             rs = obs["raise_site"]
             t.append("raise-site:" + rs.get("kind", "?"))
+            if rs.get("kind") == "explicit":
+                t.append("raise-site-hit:%s:%s" % (rs.get("file", "?").rsplit("/", 1)[-1], rs.get("line")))  # which static sites the search reached
             if rs.get("kind") == "explicit" and "inner" in obs:
                 t.append("raise-site:explicit:" + ("listed-class" if obs["inner"]["cls"] in rs.get("static", []) else "other-class-while-evaluating-the-statement"))
             if rs.get("kind") == "engine" and not rs.get("known"):
